@@ -900,6 +900,10 @@ var opNamesI = map[Op]string{
 
 func smtBodyI(t *Term) string {
 	var sb strings.Builder
+	if t.Op == OpExtract || t.Op == OpSExt || t.Op == OpZExt {
+		// only value-preserving width changes reach integer mode (intsafe.go)
+		return smtNameI(t.Args[0])
+	}
 	n, ok := opNamesI[t.Op]
 	if !ok {
 		panic("integer mode: unsupported op " + opNames[t.Op])
